@@ -238,6 +238,9 @@ pub fn log_case(c: &LogCase, shm: &Shm) {
                 continue;
             }
             for &cut in &rec[..rec.len() - 1] {
+              // the appended records are small (Full fragments) or start with a record that is
+              // itself fragmented (a First fragment right after the orphaned fragments)
+              for later in [[5usize, 40], [70_000, 5]] {
                 let mut im = Image::new();
                 im.insert(log_path(), data[..cut].to_vec());
                 let dirs: BTreeSet<PathBuf> = [PathBuf::from("/log"), PathBuf::from("/")].into_iter().collect();
@@ -245,7 +248,6 @@ pub fn log_case(c: &LogCase, shm: &Shm) {
                 shm.add(C_CASES, 1);
                 shm.add(C_NONTRIVIAL, 1);
                 shm.add(C_USER + 1, 1);
-                let later = [5usize, 40];
                 let d = || json!({"record_lengths": c.lens, "kind": "writer_stopped_between_fragments", "record": i, "file_cut_at_fragment_end": cut, "then_appended_lengths": later});
                 if let Err(e) = write_log(&tfs, &later, &[false, false], 100, true) {
                     found(shm, "C12.write_err", &format!("append after the cut failed: {}", e), d());
@@ -277,6 +279,7 @@ pub fn log_case(c: &LogCase, shm: &Shm) {
                         return;
                     }
                 }
+              }
             }
         }
     }
